@@ -1,11 +1,864 @@
-//! C14 (stub, filled in below)
-use crate::corpus::Corpus;
+//! C14 — file inclusion is relative, confined, acyclic and once-only where
+//! asked. Seeded disk images, inclusion graphs, path spellings, containers
+//! (top level, rule, function, asm block defined in another directory),
+//! ranges and single read faults; judged by safety invariants on the access
+//! log and by the reference include-expander of model14.rs.
+
+use crate::corpus::{Corpus, PROJ};
+use crate::disk::Disk;
+use crate::fs::{Fault, FaultKind, Op};
+use crate::job::{Group, Job, Outcome, Record, Spec};
+use crate::model14::{self, ErrClass, Expected};
+use crate::plan::SimPlan;
+use crate::prng::{digest128, hex128, Rng};
 use crate::replay::{Replay, Violation};
 use crate::worker::Ctx;
 use serde::{Deserialize, Serialize};
-#[derive(Clone, Debug, Serialize, Deserialize)]
-pub struct Case {}
-pub fn run(_ctx: &mut Ctx, _c: &Corpus) -> Vec<Replay> { vec![] }
-pub fn classify(_r: &Replay) -> Vec<Violation> { vec![] }
-pub fn run_proc(_ctx: &mut Ctx, _c: &Corpus, _verif: &str) -> Vec<Replay> { vec![] }
-pub fn classify_proc(_r: &Replay, _verif: &str) -> Vec<Violation> { vec![] }
+
+#[derive(Clone, Copy, Debug, PartialEq, Eq, Serialize, Deserialize)]
+pub enum IncKind {
+    Incbin,
+    Incbinstr,
+    Inchexstr,
+}
+
+#[derive(Clone, Copy, Debug, PartialEq, Eq, Serialize, Deserialize)]
+pub enum Via {
+    /// `#d incbin(..)` written in the file itself
+    Direct,
+    /// through a rule whose production (holding the path) is in the
+    /// definitions file
+    Rule,
+    /// through a `#fn` whose body (holding the path) is in the definitions file
+    Fn,
+    /// through a rule in the definitions file whose production is an `asm`
+    /// block invoking the rule that holds the path
+    AsmBlock,
+}
+
+#[derive(Clone, Debug, PartialEq, Eq, Serialize, Deserialize)]
+pub enum Item {
+    Marker(u8),
+    Include(String),
+    IncFn { kind: IncKind, spelling: String, start: Option<usize>, len: Option<usize>, via: Via },
+}
+
+#[derive(Clone, Debug, PartialEq, Eq, Serialize, Deserialize)]
+pub struct CFile {
+    /// canonical project-relative path
+    pub path: String,
+    pub once: bool,
+    pub items: Vec<Item>,
+}
+
+#[derive(Clone, Debug, PartialEq, Eq, Serialize, Deserialize)]
+pub struct DataFile {
+    pub path: String,
+    #[serde(with = "crate::disk::b64")]
+    pub content: Vec<u8>,
+}
+
+#[derive(Clone, Debug, PartialEq, Eq, Serialize, Deserialize)]
+pub struct Case {
+    pub files: Vec<CFile>,
+    pub data: Vec<DataFile>,
+    /// root spellings on the command line (relative to the project = cwd)
+    pub roots: Vec<String>,
+    /// file holding the rule/function definitions for Via::{Rule,Fn,AsmBlock}
+    pub defs_path: Option<String>,
+    /// a real directory literally named `<std>` inside the project
+    pub std_dir: bool,
+    pub fault: Option<Fault>,
+}
+
+pub const SENTINEL_ASM: &[u8] = b"#d8 0xEE, 0xED, 0xEC, 0xEB ; sentinel outside the project\n";
+pub const SENTINEL_BITS: &str = "11101110111011011110110011101011";
+pub const SENTINEL_BIN: &[u8] = b"\xEE\xED\xEC\xEBSENTINEL";
+
+fn esc(s: &str) -> String {
+    s.replace('\\', "\\\\").replace('"', "\\\"")
+}
+
+impl Case {
+    pub fn digest(&self) -> String {
+        hex128(digest128(serde_json::to_string(self).unwrap().as_bytes()))
+    }
+
+    /// Render the case to a disk image and a command line.
+    pub fn render(&self) -> Job {
+        let mut disk = Disk::new(PROJ);
+        // what lies outside the project
+        disk.add_file("/w/sentinel.asm", SENTINEL_ASM.to_vec());
+        disk.add_file("/w/sentinel.bin", SENTINEL_BIN.to_vec());
+        disk.add_file("/sentinel.asm", SENTINEL_ASM.to_vec());
+        disk.add_file("/sentinel.bin", SENTINEL_BIN.to_vec());
+        disk.add_file("/w/main.asm", SENTINEL_ASM.to_vec());
+        disk.add_file("/w/lib/a.asm", SENTINEL_ASM.to_vec());
+        disk.add_file("/w/data.bin", SENTINEL_BIN.to_vec());
+        disk.add_file("/etc/passwd", SENTINEL_BIN.to_vec());
+        // (the files of a real `<std>` directory are ordinary case files,
+        // added by the generator, so the model knows them)
+        for d in &self.data {
+            disk.add_file(&d.path, d.content.clone());
+        }
+        // definitions: one rule / function per IncFn that needs one
+        let mut defs = String::new();
+        let mut counter = 0usize;
+        let mut texts: Vec<(String, String)> = Vec::new();
+        for f in &self.files {
+            let mut t = String::new();
+            if f.once {
+                t.push_str("#once\n");
+            }
+            for item in &f.items {
+                match item {
+                    Item::Marker(b) => t.push_str(&format!("#d8 {}\n", b)),
+                    Item::Include(sp) => t.push_str(&format!("#include \"{}\"\n", esc(sp))),
+                    Item::IncFn { kind, spelling, start, len, via } => {
+                        let fname = match kind {
+                            IncKind::Incbin => "incbin",
+                            IncKind::Incbinstr => "incbinstr",
+                            IncKind::Inchexstr => "inchexstr",
+                        };
+                        let mut call = format!("{}(\"{}\"", fname, esc(spelling));
+                        if let Some(s) = start {
+                            call.push_str(&format!(", {}", s));
+                        }
+                        if let Some(l) = len {
+                            if start.is_none() {
+                                call.push_str(", 0");
+                            }
+                            call.push_str(&format!(", {}", l));
+                        }
+                        call.push(')');
+                        let k = counter;
+                        counter += 1;
+                        match via {
+                            Via::Direct => t.push_str(&format!("#d {}\n", call)),
+                            Via::Rule => {
+                                defs.push_str(&format!("#ruledef\n{{\n    emit{} => {}\n}}\n", k, call));
+                                t.push_str(&format!("emit{}\n", k));
+                            }
+                            Via::Fn => {
+                                defs.push_str(&format!("#fn get{}() => {}\n", k, call));
+                                t.push_str(&format!("#d get{}()\n", k));
+                            }
+                            Via::AsmBlock => {
+                                defs.push_str(&format!("#ruledef\n{{\n    inner{} => {}\n    wrap{} => asm {{ inner{} }}\n}}\n", k, call, k, k));
+                                t.push_str(&format!("wrap{}\n", k));
+                            }
+                        }
+                    }
+                }
+            }
+            texts.push((f.path.clone(), t));
+        }
+        for (p, t) in texts {
+            let mut text = t;
+            if Some(&p) == self.defs_path.as_ref() {
+                text.push_str(&defs);
+            }
+            disk.add_file(&p, text.into_bytes());
+        }
+        let mut spec = Spec::default();
+        spec.roots = self.roots.clone();
+        spec.groups = vec![Group { format: Some("binstr".to_string()), out: Some("out.txt".to_string()), print: false }];
+        spec.quiet = true;
+        Job::from_spec("c14", disk, spec)
+    }
+}
+
+// ------------------------------------------------------------------ generator
+
+fn dir_of(path: &str) -> Vec<String> {
+    let mut c: Vec<String> = path.split('/').map(|s| s.to_string()).collect();
+    c.pop();
+    c
+}
+
+/// Plain relative spelling of `target` as seen from the directory of `from`.
+fn rel_spelling(from: &str, target: &str) -> String {
+    let fd = dir_of(from);
+    let tc: Vec<String> = target.split('/').map(|s| s.to_string()).collect();
+    let mut common = 0;
+    while common < fd.len() && common + 1 < tc.len() && fd[common] == tc[common] {
+        common += 1;
+    }
+    let mut parts: Vec<String> = Vec::new();
+    for _ in common..fd.len() {
+        parts.push("..".to_string());
+    }
+    for c in &tc[common..] {
+        parts.push(c.clone());
+    }
+    parts.join("/")
+}
+
+/// A spelling for an edge from `from` to the project file `target`, in one of
+/// the styles the property enumerates. Some styles deliberately name
+/// something else (outside the project, not found, `<std>` tricks).
+pub fn draw_spelling(rng: &mut Rng, from: &str, target: &str, is_data: bool, std_dir: bool, clean: bool) -> String {
+    let rel = rel_spelling(from, target);
+    let depth = dir_of(from).len();
+    let ext = if is_data { "bin" } else { "asm" };
+    // `clean` cases use only spellings the property requires to work, so
+    // that deep graphs (chains, diamonds, cycles, #once) are actually expanded
+    let style = if clean { *rng.pick(&[0usize, 0, 0, 0, 30, 38, 46, 54, 60, 74]) } else { rng.below(100) };
+    match style {
+        0..=29 => rel,
+        30..=37 => format!("./{}", rel),
+        38..=45 => format!("{}/../{}", rng.pick(&["x", "lib", "nosuchdir", "a.asm", ".."]).replace("..", "sub"), rel),
+        46..=53 => format!("/{}", target),
+        54..=59 => rel.replace('/', "\\"),
+        60..=62 => format!(".\\{}", rel.replace('/', "\\")),
+        63..=65 => {
+            // doubled / trailing separators (silent cases)
+            if rng.chance(1, 2) {
+                rel.replacen('/', "//", 1)
+            } else {
+                format!("{}/", rel)
+            }
+        }
+        66..=73 => {
+            // enough `..` to leave the project
+            let ups = depth + rng.range(1, 2);
+            format!("{}{}", "../".repeat(ups), rng.pick(&[format!("sentinel.{}", ext), format!("main.{}", ext), "lib/a.asm".to_string(), format!("data.{}", ext), format!("proj/{}", target)]))
+        }
+        74..=77 => {
+            // exactly up to the project root, then back down: stays inside
+            format!("{}{}", "../".repeat(depth), target)
+        }
+        78..=80 => format!("/../sentinel.{}", ext),
+        81..=83 => format!("/etc/passwd"),
+        84..=86 => format!("<std>/../{}", target),
+        87..=89 => format!("<std>/../../sentinel.{}", ext),
+        90..=91 => format!("<std>/x.{}", ext),
+        92 => "<std>/cpu/6502.asm".to_string(),
+        93..=94 => {
+            if std_dir {
+                format!("{}./<std>/x.{}", "../".repeat(depth), ext)
+            } else {
+                rel
+            }
+        }
+        95 => ".".to_string(),
+        96 => "..".to_string(),
+        97 => format!("{}.missing", rel),
+        98 => format!("sub/<std>/../../{}", rel),
+        _ => format!("\\..\\..\\sentinel.{}", ext),
+    }
+}
+
+pub fn draw_case(rng: &mut Rng) -> Case {
+    let clean = rng.chance(1, 2);
+    let dirs = ["", "", "lib/", "src/", "lib/deep/", "a/b/c/"];
+    let nfiles = rng.range(1, 6);
+    let mut files: Vec<CFile> = Vec::new();
+    let names = ["main", "a", "b", "c", "d", "e", "f"];
+    for i in 0..nfiles {
+        let dir = if i == 0 { *rng.pick(&["", "", "", "src/", "a/b/"]) } else { *rng.pick(&dirs) };
+        files.push(CFile { path: format!("{}{}.asm", dir, names[i]), once: rng.chance(1, 3), items: vec![] });
+    }
+    // data files
+    let ndata = rng.range(0, 3);
+    let mut data: Vec<DataFile> = Vec::new();
+    for j in 0..ndata {
+        let dir = *rng.pick(&dirs);
+        let kind = rng.below(3);
+        let len = rng.range(0, 6);
+        let content: Vec<u8> = match kind {
+            0 => (0..len).map(|k| 0x80 + (j * 8 + k) as u8).collect(),
+            1 => {
+                let mut s = String::new();
+                for k in 0..(len * 2) {
+                    s.push(if (k * 7 + j * 3) % 3 == 0 { '1' } else { '0' });
+                    if k == 3 && rng.chance(1, 2) {
+                        s.push('_');
+                    }
+                }
+                if rng.chance(1, 3) {
+                    s.push('\n');
+                }
+                s.into_bytes()
+            }
+            _ => {
+                let mut s = String::new();
+                for k in 0..(len * 2) {
+                    s.push(std::char::from_digit(((k * 5 + j * 3 + 1) % 16) as u32, 16).unwrap());
+                    if k == 1 && rng.chance(1, 3) {
+                        s.push(' ');
+                    }
+                }
+                s.into_bytes()
+            }
+        };
+        data.push(DataFile { path: format!("{}{}.{}", dir, ["data", "blob", "tab"][j], ["bin", "bits", "hex"][kind]), content });
+    }
+    let std_dir = rng.chance(1, 3);
+    if std_dir {
+        // a real directory literally named `<std>` inside the project; its
+        // files are reachable as `./<std>/x.asm`, never as `<std>/x.asm`
+        data.push(DataFile { path: "<std>/x.bin".to_string(), content: vec![0xD2, 0xD3] });
+    }
+    // definitions file (for Rule / Fn / AsmBlock containers)
+    let want_defs = rng.chance(1, 2) && !data.is_empty();
+    let mut defs_path = None;
+    if want_defs {
+        let p = format!("{}defs.asm", rng.pick(&["", "lib/", "inc/", "lib/deep/", "a/"]));
+        files.push(CFile { path: p.clone(), once: true, items: vec![] });
+        defs_path = Some(p);
+    }
+    let nsrc = nfiles;
+    if std_dir {
+        files.push(CFile { path: "<std>/x.asm".to_string(), once: false, items: vec![Item::Marker(0xD1)] });
+        files.push(CFile { path: "<std>/cpu/6502.asm".to_string(), once: false, items: vec![Item::Marker(0xD4)] });
+    }
+    // items: markers, include edges, inclusion-function calls
+    let mut marker = 0x10u8;
+    for i in 0..nsrc {
+        let nitems = rng.range(1, 4);
+        let mut items = Vec::new();
+        if i == 0 {
+            if let Some(dp) = &defs_path {
+                let from = files[0].path.clone();
+                items.push(Item::Include(rel_spelling(&from, dp)));
+            }
+        }
+        for _ in 0..nitems {
+            match rng.below(10) {
+                0..=2 => {
+                    items.push(Item::Marker(marker));
+                    marker = marker.wrapping_add(1);
+                }
+                3..=6 => {
+                    // edge to another (or the same) file: forward edges mostly,
+                    // back edges sometimes (cycles, self-inclusion)
+                    let t = if rng.chance(3, 4) && i + 1 < nsrc { rng.range(i + 1, nsrc - 1) } else { rng.below(nsrc) };
+                    let from = files[i].path.clone();
+                    let target = files[t].path.clone();
+                    items.push(Item::Include(draw_spelling(rng, &from, &target, false, std_dir, clean)));
+                }
+                _ => {
+                    if data.is_empty() {
+                        items.push(Item::Marker(marker));
+                        marker = marker.wrapping_add(1);
+                        continue;
+                    }
+                    let d = rng.below(data.len());
+                    let kind = match data[d].path.rsplit('.').next() {
+                        Some("bin") => IncKind::Incbin,
+                        Some("bits") => IncKind::Incbinstr,
+                        _ => IncKind::Inchexstr,
+                    };
+                    let via = if defs_path.is_some() { *rng.pick(&[Via::Direct, Via::Rule, Via::Fn, Via::AsmBlock, Via::Fn]) } else { Via::Direct };
+                    let container = match via {
+                        Via::Direct => files[i].path.clone(),
+                        _ => defs_path.clone().unwrap(),
+                    };
+                    let spelling = draw_spelling(rng, &container, &data[d].path, true, std_dir, clean);
+                    let n = match kind {
+                        IncKind::Incbin => data[d].content.len(),
+                        _ => data[d].content.iter().filter(|b| b.is_ascii_hexdigit()).count(),
+                    };
+                    let (start, len) = if clean && n > 0 {
+                        let s0 = rng.below(n);
+                        match rng.below(3) {
+                            0 => (None, None),
+                            1 => (Some(s0), None),
+                            _ => (Some(s0), Some(rng.range(1, n - s0))),
+                        }
+                    } else {
+                        match rng.below(4) {
+                            0 => (None, None),
+                            1 => (Some(rng.below(n + 3)), None),
+                            _ => (Some(rng.below(n + 3)), Some(rng.below(n + 3))),
+                        }
+                    };
+                    items.push(Item::IncFn { kind, spelling, start, len, via });
+                }
+            }
+        }
+        files[i].items.extend(items);
+    }
+    // roots
+    let mut roots = vec![files[0].path.clone()];
+    match rng.below(20) {
+        0 => roots[0] = format!("./{}", files[0].path),
+        1 if nsrc > 1 => roots.push(files[1].path.clone()),
+        2 if nsrc > 1 => {
+            let second = files[rng.below(nsrc)].path.clone();
+            roots.push(second);
+        }
+        _ => {}
+    }
+    // a single permanent read fault on one file of the graph
+    let fault = if rng.chance(1, 4) {
+        let mut all: Vec<String> = files.iter().map(|f| f.path.clone()).collect();
+        all.extend(data.iter().map(|d| d.path.clone()));
+        let p = rng.pick(&all).clone();
+        Some(Fault { path: format!("{}/{}", PROJ, p), kind: *rng.pick(&[FaultKind::Missing, FaultKind::Unreadable, FaultKind::ReadError]) })
+    } else {
+        None
+    };
+    Case { files, data, roots, defs_path, std_dir, fault }
+}
+
+/// The exhaustive range grid (e): one data file of each kind and length
+/// 0..=6, every (start, length) in [0, len+2]^2 plus (start) and ().
+pub fn range_case(kind: IncKind, n: usize, start: Option<usize>, len: Option<usize>, via: Via) -> Case {
+    let content: Vec<u8> = match kind {
+        IncKind::Incbin => (0..n).map(|k| 0xA0 + k as u8).collect(),
+        IncKind::Incbinstr => (0..n).map(|k| if k % 3 == 0 { b'1' } else { b'0' }).collect(),
+        IncKind::Inchexstr => (0..n).map(|k| b"a5c3e7"[k % 6]).collect(),
+    };
+    let dpath = "lib/data.dat".to_string();
+    let mut files = vec![CFile { path: "main.asm".to_string(), once: false, items: vec![] }];
+    let mut defs_path = None;
+    if via != Via::Direct {
+        files.push(CFile { path: "lib/defs.asm".to_string(), once: true, items: vec![] });
+        defs_path = Some("lib/defs.asm".to_string());
+        files[0].items.push(Item::Include("lib/defs.asm".to_string()));
+    }
+    let spelling = if via == Via::Direct { "lib/data.dat".to_string() } else { "data.dat".to_string() };
+    files[0].items.push(Item::Marker(0x11));
+    files[0].items.push(Item::IncFn { kind, spelling, start, len, via });
+    files[0].items.push(Item::Marker(0x12));
+    Case { files, data: vec![DataFile { path: dpath, content }], roots: vec!["main.asm".to_string()], defs_path, std_dir: false, fault: None }
+}
+
+// --------------------------------------------------------------------- oracle
+
+fn bits_of_output(rec: &Record) -> Option<String> {
+    rec.writes.iter().find(|w| w.spelling == "out.txt" && w.complete).map(|w| String::from_utf8_lossy(&w.data).to_string())
+}
+
+pub fn check(case: &Case, job: &Job, rec: &Record) -> Vec<Violation> {
+    let mut v = Vec::new();
+    let builtins = crate::job::std_file_names();
+    let m = model14::run(case, builtins);
+    let ctx = format!("roots={:?} fault={:?} expected={:?}", case.roots, case.fault, short_expected(&m.expected));
+    let fault_touched = case.fault.as_ref().map(|f| {
+        let rel = f.path.strip_prefix(&format!("{}/", PROJ)).unwrap_or(&f.path).to_string();
+        m.touched.contains(&rel)
+    });
+
+    // ---- safety invariants on the access log (model-free)
+    for e in &rec.events {
+        if e.resolved.is_empty() || e.resolved == "<std>" {
+            continue;
+        }
+        if matches!(e.op, Op::Create | Op::Write) {
+            continue;
+        }
+        if !Disk::is_inside(&e.resolved, PROJ) {
+            v.push(Violation::new("confinement", format!("the assembler asked the disk for `{}` which resolves to {} — outside the working directory {} ({:?}) | {}", e.spelling, e.resolved, PROJ, e.op, ctx)));
+            break;
+        }
+    }
+    if let Some(bits) = bits_of_output(rec) {
+        if bits.contains(SENTINEL_BITS) {
+            v.push(Violation::new("sentinel-in-output", format!("content of a file outside the project appears in the output | {}", ctx)));
+        }
+    }
+    if let Outcome::Panic(p) = &rec.outcome {
+        v.push(Violation::new(&crate::c03::panic_class("panic", p), format!("panicked: {} | {}", p, ctx)));
+        return v;
+    }
+
+    // ---- reference model
+    let actual_ok = matches!(rec.outcome, Outcome::Ok);
+    match (&m.expected, fault_touched) {
+        (Expected::Unspecified(_), _) => {}
+        (_, Some(true)) => {
+            // a file the expansion needs is permanently unreadable
+            if actual_ok {
+                v.push(Violation::new("fault-ignored", format!("a file the inclusion graph needs is unreadable and the run still succeeded | {}", ctx)));
+            }
+        }
+        (Expected::Error(cls), _) => {
+            if actual_ok {
+                let class = match cls {
+                    ErrClass::Outside => "outside-not-rejected",
+                    ErrClass::NotFound => "missing-file-accepted",
+                    ErrClass::Cycle => "cycle-not-reported",
+                    ErrClass::BadRange => "range-past-end-accepted",
+                    ErrClass::StdNotBuiltin => "std-names-non-builtin",
+                    ErrClass::BadContent => "bad-digit-accepted",
+                };
+                v.push(Violation::new(class, format!("the property requires an error ({:?}) but the run succeeded with output {:?} | {}", cls, bits_of_output(rec).map(|b| crate::orch::truncate(&b, 200)), ctx)));
+            }
+        }
+        (Expected::Bits(bits), _) => {
+            if !actual_ok {
+                v.push(Violation::new("valid-inclusion-rejected", format!("the property requires success with {} output bits but the run failed: {} | {}", bits.len(), first_error(&rec.stderr), ctx)));
+            } else {
+                match bits_of_output(rec) {
+                    Some(got) if &got == bits => {
+                        // expansion count: one open per splice for every source file
+                        for (p, n) in &m.expansions {
+                            let abs = format!("{}/{}", PROJ, p);
+                            let opens = rec.events.iter().filter(|e| e.op == Op::Open && e.resolved == abs && e.ok).count();
+                            if opens != *n {
+                                v.push(Violation::new("expansion-count", format!("`{}` should be spliced {} time(s) but was opened {} time(s) | {}", p, n, opens, ctx)));
+                                break;
+                            }
+                        }
+                    }
+                    Some(got) => {
+                        v.push(Violation::new("wrong-content", format!("output bits differ from the reference expansion\n expected {}\n got      {} | {}", crate::orch::truncate(bits, 400), crate::orch::truncate(&got, 400), ctx)));
+                    }
+                    None => {
+                        v.push(Violation::new("no-output", format!("success without the requested output | {}", ctx)));
+                    }
+                }
+            }
+        }
+    }
+    let _ = job;
+    v
+}
+
+fn short_expected(e: &Expected) -> String {
+    match e {
+        Expected::Bits(b) => format!("Bits({} bits)", b.len()),
+        other => format!("{:?}", other),
+    }
+}
+
+fn first_error(stderr: &[u8]) -> String {
+    let t = crate::job::strip_ansi(&String::from_utf8_lossy(stderr));
+    t.lines().find(|l| l.starts_with("error: ")).unwrap_or("").to_string()
+}
+
+fn case_replay(ctx: &Ctx, v: Violation, case: &Case, plan: SimPlan) -> Replay {
+    let mut r = ctx.replay("C14", v, plan);
+    r.c14 = Some(case.clone());
+    r
+}
+
+fn exec_case(ctx: &mut Ctx, case: &Case, verif: &str, out: &mut Vec<Replay>) {
+    let job = case.render();
+    let faults: Vec<Fault> = case.fault.iter().cloned().collect();
+    let plan = SimPlan::single(job.clone(), faults, &[0u8; 16], false, false);
+    let res = ctx.exec(&plan, "C14");
+    let rec = &res.runs[0].record;
+    ctx.stats.inc("evaluations");
+    let m = model14::run(case, crate::job::std_file_names());
+    ctx.stats.inc(match &m.expected {
+        Expected::Bits(_) => "expected_success",
+        Expected::Error(ErrClass::Outside) => "expected_error_outside",
+        Expected::Error(ErrClass::NotFound) => "expected_error_notfound",
+        Expected::Error(ErrClass::Cycle) => "expected_error_cycle",
+        Expected::Error(ErrClass::BadRange) => "expected_error_badrange",
+        Expected::Error(ErrClass::StdNotBuiltin) => "expected_error_std",
+        Expected::Error(ErrClass::BadContent) => "expected_error_content",
+        Expected::Unspecified(_) => "expected_unspecified",
+    });
+    ctx.stats.inc(if matches!(rec.outcome, Outcome::Ok) { "actual_success" } else { "actual_failure" });
+    if case.fault.is_some() {
+        ctx.stats.inc("fault_configured");
+        if rec.fired.iter().any(|n| *n > 0) {
+            ctx.stats.inc("fault_fired");
+        }
+    }
+    let edges = case.files.iter().map(|f| f.items.iter().filter(|i| !matches!(i, Item::Marker(_))).count()).sum::<usize>();
+    let reached_disk = rec.events.iter().filter(|e| matches!(e.op, Op::Probe | Op::Open)).count() > 1;
+    if edges >= 1 && reached_disk {
+        ctx.stats.note("nontrivial", case.digest()[..16].to_string());
+    }
+    if ctx.stats.samples.len() < 2 && edges >= 2 {
+        let files: Vec<serde_json::Value> = job.disk.files().iter().filter(|(p, _)| p.starts_with(PROJ) && p.ends_with(".asm")).map(|(p, d)| serde_json::json!({"path": p, "text": String::from_utf8_lossy(d)})).collect();
+        ctx.stats.sample(serde_json::json!({"roots": case.roots, "files": files, "fault": case.fault, "expected": short_expected(&m.expected), "outcome": format!("{:?}", rec.outcome),
+            "access_log": rec.events.iter().take(16).map(|e| format!("{:?} {} -> {} ok={}", e.op, e.spelling, e.resolved, e.ok)).collect::<Vec<_>>()}), 4);
+    }
+    let mut seen = std::collections::BTreeSet::new();
+    for v in check(case, &job, rec) {
+        if !seen.insert(v.class.clone()) {
+            continue;
+        }
+        // Tier A's disk is a model: a confinement or provenance alarm is only
+        // reported after the real binary on the real file system shows it too
+        if (v.class == "confinement" || v.class == "sentinel-in-output") && crate::procsim::available(verif) {
+            let pv = check_proc_case(case, verif);
+            ctx.stats.inc("tier_b_confirmations");
+            if !pv.iter().any(|x| x.class == "confinement" || x.class == "sentinel-in-output") {
+                ctx.stats.note("harness_errors", format!("Tier A {} alarm not reproduced by the real binary: {}", v.class, crate::orch::truncate(&v.detail, 300)));
+                continue;
+            }
+        }
+        out.push(case_replay(ctx, v, case, plan.clone()));
+    }
+}
+
+pub fn run(ctx: &mut Ctx, _c: &Corpus) -> Vec<Replay> {
+    let mut rng = Rng::new(ctx.run_seed);
+    let mut out = Vec::new();
+    let verif = ctx.verif.clone();
+    // the exhaustive range grid occupies the first run indices of every batch
+    if let Some(cases) = range_grid_slice(ctx.run) {
+        for case in cases {
+            ctx.stats.inc("range_grid_cases");
+            exec_case(ctx, &case, &verif, &mut out);
+        }
+        return out;
+    }
+    let case = draw_case(&mut rng);
+    exec_case(ctx, &case, &verif, &mut out);
+    out
+}
+
+pub const GRID_RUNS: u64 = 3 * 7 * 4;
+
+/// Run index -> the slice of the exhaustive (kind, file length, container)
+/// grid it covers: every (start, len) in [0, n+2]^2, (start) alone and ().
+pub fn range_grid_slice(run: u64) -> Option<Vec<Case>> {
+    if run >= GRID_RUNS {
+        return None;
+    }
+    let kind = [IncKind::Incbin, IncKind::Incbinstr, IncKind::Inchexstr][(run % 3) as usize];
+    let n = ((run / 3) % 7) as usize;
+    let via = [Via::Direct, Via::Rule, Via::Fn, Via::AsmBlock][((run / 21) % 4) as usize];
+    let mut cases = Vec::new();
+    cases.push(range_case(kind, n, None, None, via));
+    for s in 0..=(n + 2) {
+        cases.push(range_case(kind, n, Some(s), None, via));
+        for l in 0..=(n + 2) {
+            cases.push(range_case(kind, n, Some(s), Some(l), via));
+        }
+    }
+    Some(cases)
+}
+
+pub fn classify(r: &Replay) -> Vec<Violation> {
+    let case = match &r.c14 {
+        Some(c) => c,
+        None => return vec![],
+    };
+    let job = case.render();
+    let faults: Vec<Fault> = case.fault.iter().cloned().collect();
+    let plan = SimPlan::single(job.clone(), faults, &[0u8; 16], false, false);
+    let res = crate::plan::run_plan(&plan);
+    check(case, &job, &res.runs[0].record)
+}
+
+// ===================================================================== Tier B
+
+use crate::procsim::{proc_replay, ProcFault, ProcPlan, ProcRecord};
+
+fn proc_plan_of(case: &Case) -> ProcPlan {
+    let job = case.render();
+    let faults: Vec<ProcFault> = case
+        .fault
+        .iter()
+        .map(|f| ProcFault {
+            kind: match f.kind {
+                FaultKind::Missing => "probe-enoent",
+                FaultKind::Unreadable => "open-eacces",
+                _ => "read-eio",
+            }
+            .to_string(),
+            path: f.path.clone(),
+        })
+        .collect();
+    ProcPlan { job, faults, keys: "00000000000000000000000000000000".to_string(), clock: None, scratch_tag: String::new() }
+}
+
+pub fn check_proc_record(case: &Case, rec: &ProcRecord) -> Vec<Violation> {
+    let mut v = Vec::new();
+    if rec.skipped.is_some() {
+        return v;
+    }
+    let m = model14::run(case, crate::job::std_file_names());
+    let ctx = format!("roots={:?} fault={:?} expected={:?}", case.roots, case.fault, short_expected(&m.expected));
+    for e in &rec.events {
+        if e.op == "create" || e.op == "write" {
+            continue;
+        }
+        let inside = e.resolved.starts_with(&format!("{}/", PROJ)) || e.resolved == PROJ;
+        if !inside {
+            v.push(Violation::new("confinement", format!("the real binary asked the kernel for `{}` which resolves to {} — outside the working directory ({}) | {}", e.path, e.resolved, e.op, ctx)));
+            break;
+        }
+    }
+    let out_bits = rec.changed.get(&format!("{}/out.txt", PROJ)).map(|t| String::from_utf8_lossy(&crate::disk::b64::from_text(t)).to_string());
+    if let Some(bits) = &out_bits {
+        if bits.contains(SENTINEL_BITS) {
+            v.push(Violation::new("sentinel-in-output", format!("content of a file outside the project appears in the output of the real binary | {}", ctx)));
+        }
+    }
+    if rec.signal.is_some() || !matches!(rec.exit, Some(0) | Some(1)) {
+        v.push(Violation::new("abnormal-end", format!("exit {:?} signal {:?} | {}", rec.exit, rec.signal, ctx)));
+        return v;
+    }
+    let actual_ok = rec.exit == Some(0);
+    let fault_touched = case.fault.as_ref().map(|f| m.touched.contains(f.path.strip_prefix(&format!("{}/", PROJ)).unwrap_or(&f.path)));
+    match (&m.expected, fault_touched) {
+        (Expected::Unspecified(_), _) => {}
+        (_, Some(true)) => {
+            if actual_ok {
+                v.push(Violation::new("fault-ignored", format!("a needed file is unreadable and the real binary still exited 0 | {}", ctx)));
+            }
+        }
+        (Expected::Error(cls), _) => {
+            if actual_ok {
+                let class = match cls {
+                    ErrClass::Outside => "outside-not-rejected",
+                    ErrClass::NotFound => "missing-file-accepted",
+                    ErrClass::Cycle => "cycle-not-reported",
+                    ErrClass::BadRange => "range-past-end-accepted",
+                    ErrClass::StdNotBuiltin => "std-names-non-builtin",
+                    ErrClass::BadContent => "bad-digit-accepted",
+                };
+                v.push(Violation::new(class, format!("the property requires an error ({:?}) but the real binary exited 0 with output {:?} | {}", cls, out_bits.as_ref().map(|b| crate::orch::truncate(b, 200)), ctx)));
+            }
+        }
+        (Expected::Bits(bits), _) => {
+            if !actual_ok {
+                v.push(Violation::new("valid-inclusion-rejected", format!("the property requires success but the real binary failed: {} | {}", first_error(&rec.stderr), ctx)));
+            } else if out_bits.as_ref() != Some(bits) {
+                v.push(Violation::new("wrong-content", format!("output of the real binary differs from the reference expansion\n expected {}\n got      {:?} | {}", crate::orch::truncate(bits, 400), out_bits.as_ref().map(|b| crate::orch::truncate(b, 400)), ctx)));
+            }
+        }
+    }
+    v
+}
+
+fn check_proc_case(case: &Case, verif: &str) -> Vec<Violation> {
+    let plan = proc_plan_of(case);
+    let rec = crate::procsim::run_proc(&plan, verif);
+    check_proc_record(case, &rec)
+}
+
+pub fn run_proc(ctx: &mut Ctx, _c: &Corpus, verif: &str) -> Vec<Replay> {
+    let mut rng = Rng::new(ctx.run_seed);
+    let case = draw_case(&mut rng);
+    let mut out = Vec::new();
+    let plan = proc_plan_of(&case);
+    let rec = ctx.exec_proc(&plan, "C14", verif);
+    if let Some(why) = &rec.skipped {
+        ctx.stats.inc(&format!("skipped:{}", why));
+        return out;
+    }
+    ctx.stats.inc("evaluations");
+    ctx.stats.inc(if rec.exit == Some(0) { "actual_success" } else { "actual_failure" });
+    if case.fault.is_some() {
+        ctx.stats.inc("fault_configured");
+        if rec.fired.iter().any(|f| f.2 > 0) {
+            ctx.stats.inc("fault_fired");
+        }
+    }
+    if rec.events.len() > 2 {
+        ctx.stats.note("nontrivial", format!("p{}", &case.digest()[..16]));
+    }
+    if ctx.stats.samples.is_empty() {
+        ctx.stats.sample(serde_json::json!({"tier": "proc", "roots": case.roots, "fault": case.fault, "exit": rec.exit, "kernel_access_log": rec.events.iter().take(12).map(|e| format!("{} {} -> {} ret={}", e.op, e.path, e.resolved, e.ret)).collect::<Vec<_>>()}), 4);
+    }
+    let mut seen = std::collections::BTreeSet::new();
+    for v in check_proc_record(&case, &rec) {
+        if seen.insert(v.class.clone()) {
+            let mut r = proc_replay("C14", ctx.seed, ctx.run, v, plan.clone());
+            r.c14 = Some(case.clone());
+            out.push(r);
+        }
+    }
+    out
+}
+
+pub fn classify_proc(r: &Replay, verif: &str) -> Vec<Violation> {
+    match &r.c14 {
+        Some(case) => check_proc_case(case, verif),
+        None => vec![],
+    }
+}
+
+/// Structure-level minimisation of a C14 case: drop the fault, drop items,
+/// drop files and data files, clear #once flags, drop extra roots — while
+/// the same violation class persists (each trial in a fresh process).
+pub fn minimise(r: &Replay, tmpdir: &str, budget_s: f64) -> Replay {
+    use crate::minimize::classify_sub;
+    let target = r.violation.class.clone();
+    let deadline = crate::seams::real_now() + budget_s;
+    let mut trials = 0u64;
+    let mut best = r.clone();
+    let rebuild = |rep: &mut Replay| {
+        let case = rep.c14.clone().unwrap();
+        if rep.proc.is_some() {
+            rep.proc = Some(proc_plan_of(&case));
+        } else {
+            let job = case.render();
+            let faults: Vec<Fault> = case.fault.iter().cloned().collect();
+            rep.plan = SimPlan::single(job, faults, &[0u8; 16], false, false);
+        }
+    };
+    let mut ok = |cand: &Replay| -> bool {
+        if crate::seams::real_now() > deadline {
+            return false;
+        }
+        trials += 1;
+        classify_sub(cand, tmpdir, "c14").iter().any(|c| *c == target)
+    };
+    loop {
+        let mut progressed = false;
+        let case = best.c14.clone().unwrap();
+        let mut cands: Vec<Case> = Vec::new();
+        if case.fault.is_some() {
+            let mut c = case.clone();
+            c.fault = None;
+            cands.push(c);
+        }
+        if case.roots.len() > 1 {
+            for i in 0..case.roots.len() {
+                let mut c = case.clone();
+                c.roots.remove(i);
+                cands.push(c);
+            }
+        }
+        for fi in 0..case.files.len() {
+            if case.files.len() > 1 && !case.roots.contains(&case.files[fi].path) {
+                let mut c = case.clone();
+                let p = c.files[fi].path.clone();
+                c.files.remove(fi);
+                if c.defs_path.as_ref() == Some(&p) {
+                    c.defs_path = None;
+                }
+                cands.push(c);
+            }
+            for ii in 0..case.files[fi].items.len() {
+                let mut c = case.clone();
+                c.files[fi].items.remove(ii);
+                cands.push(c);
+            }
+            if case.files[fi].once {
+                let mut c = case.clone();
+                c.files[fi].once = false;
+                cands.push(c);
+            }
+        }
+        for di in 0..case.data.len() {
+            let mut c = case.clone();
+            c.data.remove(di);
+            cands.push(c);
+        }
+        if case.std_dir {
+            let mut c = case.clone();
+            c.std_dir = false;
+            cands.push(c);
+        }
+        for c in cands {
+            let mut cand = best.clone();
+            cand.c14 = Some(c);
+            rebuild(&mut cand);
+            if ok(&cand) {
+                best = cand;
+                progressed = true;
+                break;
+            }
+        }
+        if !progressed || crate::seams::real_now() > deadline {
+            break;
+        }
+    }
+    best.minimised = true;
+    best.note = format!("minimised with {} subprocess trials", trials);
+    best
+}
